@@ -9,7 +9,7 @@
   (def st (parser/status p))
   (gccollect)
   (def keep @[])
-  (for n 8 120 (for k 0 4 (array/push keep (string/repeat (string/format "%c" (+ 65 (% k 26))) n))))
+  (for n 36 100 (for k 0 3 (array/push keep (string/repeat (string/format "%c" (+ 65 (% k 26))) n))))
   [st (parser/error p) (length keep)])
 (each src ["(defn f [x] (print \"abc" "(a [b {c @(d @[e @{f `long string" "   [1 2 3 (4 5 6 {:a :b :c" "(((((((((((((((("]
   (print (string/format "%j" (msg src))))
